@@ -98,6 +98,10 @@ fn get_directory(img: &mut Box<dyn img::DiskImage>,dpb: &DiskParameterBlock) -> 
         }
     }
     let buf_size = dpb.dir_entries() * DIR_ENTRY_SIZE;
+    if buf.len() < buf_size {
+        debug!("directory blocks are smaller than expected: DPB needs {}, img gave {}",buf_size,buf.len());
+        return None;
+    }
     Some(Directory::from_bytes(&buf[0..buf_size]).expect(RCH))
 }
 
